@@ -90,7 +90,7 @@ Qed.
 Lemma window_app : forall s hi, rd_inv s hi -> in_window s = 1%nat -> exists i, app s = ApSnapPrepared i /\ hi < i.
 Proof.
   intros s hi H W. unfold rd_inv, in_window, window, snapfacts in *.
-  destruct (rdp s) as [|r sv pb|r pb apd|r pb idx|r|r fl|r|r k]; try discriminate.
+  destruct (rdp s) as [|r sv pb|r pb apd|r pb idx|r|r fl|r|r k|r k cidx]; try discriminate.
   - destruct sv; [|discriminate]. destruct (0 <? r_snap r); [|discriminate]. exists (r_snap r). tauto.
   - destruct (0 <? r_snap r); [|discriminate]. destruct apd; [contradiction|]. exists (r_snap r). tauto.
   - destruct (0 <? r_snap r); [contradiction|discriminate].
@@ -102,18 +102,19 @@ Qed.
 Lemma rd_inv_app : forall s s' hi,
   rd_inv s hi -> segs s' = segs s -> unflushed s' = unflushed s -> rdp s' = rdp s -> rs_last s' = rs_last s ->
   published s' = published s -> wstate s' = wstate s -> hcommit s' = hcommit s -> proposed s' = proposed s ->
-  ckpts s' = ckpts s -> snapfiles s' = snapfiles s ->
-  (forall i, app s = ApSnapPrepared i -> i <= hi) ->
+  ckpts s' = ckpts s -> snapfiles s' = snapfiles s -> rd_done s' = rd_done s -> rd_done s <= hi ->
+  (forall i, app s = ApSnapPrepared i -> i <= rd_done s) ->
   rd_inv s' hi.
 Proof.
-  intros s s' hi H E1 E2 E3 E4 E5 E6 E7 E8 E9 E10 Ha.
+  intros s s' hi H E1 E2 E3 E4 E5 E6 E7 E8 E9 E10 E11 Hd Ha.
   unfold rd_inv, window, snapfacts, snap_tail, lc_all_lt, flushed_state, pubcl, rlast, ckpt_ok in *.
-  rewrite E1, E2, E3, E4, E5, E6, E7, E8, E9, E10.
-  destruct (rdp s) as [|r sv pb|r pb apd|r pb idx|r|r fl|r|r k]; auto.
+  rewrite E1, E2, E3, E4, E5, E6, E7, E8, E9, E10, E11.
+  destruct (rdp s) as [|r sv pb|r pb apd|r pb idx|r|r fl|r|r k|r k cidx]; auto.
   - destruct (0 <? r_snap r) eqn:Q; [|exact H]. destruct sv; [|exact H].
     exfalso. assert (X : app s = ApSnapPrepared (r_snap r)) by tauto. specialize (Ha _ X). lia.
   - destruct (0 <? r_snap r) eqn:Q; [|exact H]. destruct apd; [exact H|].
     exfalso. assert (X : app s = ApSnapPrepared (r_snap r)) by tauto. specialize (Ha _ X). lia.
+  - exfalso. assert (X : app s = ApSnapPrepared (r_snap r)) by tauto. specialize (Ha _ X). lia.
   - exfalso. assert (X : app s = ApSnapPrepared (r_snap r)) by tauto. specialize (Ha _ X). lia.
   - exfalso. assert (X : app s = ApSnapPrepared (r_snap r)) by tauto. specialize (Ha _ X). lia.
 Qed.
@@ -139,7 +140,12 @@ Proof.
   pose proof (v_done _ _ _ HV) as [_ [Hdh _]].
   vinv_split HV.
   - apply (rd_inv_app s); auto. intros j Hj. rewrite Ea in Hj. injection Hj as <-. lia.
-  - rewrite Ea in v_app. destruct v_app as [A [B [C|C]]]; [lia|]. repeat split; try tauto.
+  - rewrite Ea in v_app. destruct v_app as [A [B [C|[C|C]]]]; [lia| |].
+    2:{ exfalso. destruct C as [C1 [C2 _]]. pose proof v_rd as V. clear - C1 C2 V Qd B. unfold rd_inv, pend_idx, pend_r, pending in *.
+        destruct (rdp s) as [|r sv pb|r pb apd|r pb idx|r|r fl|r|r k|r k cidx]; try lia;
+          try (destruct (0 <? r_snap r) eqn:Q; [|lia]); unfold snapfacts in *; try (destruct sv); try (destruct apd); try (destruct pb);
+          intuition lia. }
+    repeat split; try tauto.
     destruct (restoring s) as [j|] eqn:Rs; [|reflexivity]. destruct (proj2 v_pgwal j eq_refl) as [k Hk]. congruence.
 Qed.
 
@@ -164,7 +170,7 @@ Proof.
   assert (Hw : in_window s = 0%nat).
   { destruct (in_window s) as [|[|n]] eqn:W; [reflexivity| |].
     - destruct (window_app _ _ v_rd0 W) as [x [X _]]. congruence.
-    - exfalso. unfold in_window in W. destruct (rdp s) as [|r sv pb|r pb apd|r pb idx|r|r fl|r|r k]; try discriminate W;
+    - exfalso. unfold in_window in W. destruct (rdp s) as [|r sv pb|r pb apd|r pb idx|r|r fl|r|r k|r k cidx]; try discriminate W;
         repeat match type of W with context [if ?b then _ else _] => destruct b end; discriminate W. }
   destruct v_latest0 as [[L1|[L1 _]] L2]; [|rewrite Hw in L1; discriminate].
   assert (Hv : forall j, newest (segs s) <= j -> ~ In j (purge_victims (eff_keep_ckpt c) (latest s) (map fst (ckpts s)))).
@@ -194,7 +200,7 @@ Qed.
 Lemma step_rd_savesnap_before : forall c s s' i, Inv c s -> step c s (EvRdSaveSnapBefore i) = Ok s' -> Inv c s'.
 Proof.
   intros c s s' i [hi [HP HV]] H. unfold step in H.
-  destruct (rdp s) as [|r sv pb|r pb apd|r pb idx|r|r fl|r|r k] eqn:E; try discriminate.
+  destruct (rdp s) as [|r sv pb|r pb apd|r pb idx|r|r fl|r|r k|r k cidx] eqn:E; try discriminate.
   destruct sv; [discriminate|]. destruct pb; [|discriminate].
   destruct (app s) eqn:Ea; try discriminate.
   destruct (negb (i =? r_snap r) || negb (i =? i0) || negb (0 <? i)) eqn:G; [discriminate|].
@@ -217,14 +223,14 @@ Qed.
 Lemma step_rd_snapfile : forall c s s' i, Inv c s -> step c s (EvRdSnapFile i) = Ok s' -> Inv c s'.
 Proof.
   intros c s s' i [hi [HP HV]] H. unfold step in H.
-  destruct (rdp s) as [|r sv pb|r pb apd|r pb idx|r|r fl|r|r k] eqn:E; try discriminate.
+  destruct (rdp s) as [|r sv pb|r pb apd|r pb idx|r|r fl|r|r k|r k cidx] eqn:E; try discriminate.
   destruct fl; [discriminate|].
   destruct (negb (i =? r_snap r)) eqn:G; [discriminate|]. norm_guards. apply N.eqb_eq in G. subst i. injection H as <-.
   unfold running in *. proj. destruct (rc s) eqn:R; try (destruct HV as [_ [Hk _]]; congruence).
   pose proof (v_rd _ _ _ HV) as V. unfold rd_inv in V. rewrite E in V.
   destruct V as [V0 [V1 [V2 [V3 [V4 [V5 [V6 V7]]]]]]].
   assert (Q : (0 <? r_snap r) = true) by (apply N.ltb_lt; exact V0).
-  assert (Hp : pend_idx s = r_snap r) by (unfold pend_idx, pending; rewrite E, ?Q; reflexivity).
+  assert (Hp : pend_idx s = r_snap r) by (unfold pend_idx, pend_r, pending; rewrite E, ?Q; reflexivity).
   assert (Hw : in_window s = 0%nat) by (unfold in_window; rewrite E, ?Q; reflexivity).
   exists hi. split.
   - apply (pinv_files s); try reflexivity; try exact HP; proj.
@@ -235,9 +241,9 @@ Proof.
     + intros f [<-|Hin]; [right; exact V3|]. apply removeN_In in Hin. destruct Hin as [Hin _]. exact (p_files_le _ _ HP f Hin).
     + exact (p_ckpts _ _ HP).
   - unfold running. proj. rewrite R.
-    assert (Hp' : forall t, rdp t = RdSnapSaving r true -> pend_idx t = r_snap r) by (intros t Ht; unfold pend_idx, pending; rewrite Ht, ?Q; reflexivity).
+    assert (Hp' : forall t, rdp t = RdSnapSaving r true -> pend_idx t = r_snap r) by (intros t Ht; unfold pend_idx, pend_r, pending; rewrite Ht, ?Q; reflexivity).
     assert (Hw' : forall t, rdp t = RdSnapSaving r true -> in_window t = 1%nat) by (intros t Ht; unfold in_window; rewrite Ht, ?Q; reflexivity).
-    destruct HV; constructor; unfold snap_pend, snap_done, snap_busy in *; proj; rewrite ?Hp', ?Hw' by reflexivity; rewrite ?Hp in *; try assumption; try exact I.
+    destruct HV; constructor; unfold snap_pend, snap_done, snap_mid, snap_busy in *; proj; rewrite ?Hp', ?Hw' by reflexivity; rewrite ?Hp in *; try assumption; try exact I.
     + unfold rd_inv. proj. unfold snapfacts, lc_all_lt, flushed_state, ckpt_ok in *. proj.
       repeat split; try tauto. intros _. left. reflexivity.
     + destruct v_latest as [[L1|[L1 _]] L2]; [split; [left; exact L1 | exact L2] | rewrite Hw in L1; discriminate].
@@ -306,7 +312,7 @@ Proof. intros. rewrite app_tail_recs by auto. rewrite pmarkers_app. simpl. apply
 Lemma step_rd_savesnap_after : forall c s s' i, Inv c s -> step c s (EvRdSaveSnapAfter i) = Ok s' -> Inv c s'.
 Proof.
   intros c s s' i [hi [HP HV]] H. unfold step in H.
-  destruct (rdp s) as [|r sv pb|r pb apd|r pb idx|r|r fl|r|r k] eqn:E; try discriminate.
+  destruct (rdp s) as [|r sv pb|r pb apd|r pb idx|r|r fl|r|r k|r k cidx] eqn:E; try discriminate.
   destruct fl; [|discriminate].
   destruct (negb (i =? r_snap r)) eqn:G; [discriminate|]. norm_guards. apply N.eqb_eq in G. subst i. injection H as <-.
   unfold running in *. proj. destruct (rc s) eqn:R; try (destruct HV as [_ [Hk _]]; congruence).
@@ -314,16 +320,16 @@ Proof.
   pose proof (v_rd _ _ _ HV) as V. unfold rd_inv in V. rewrite E in V.
   destruct V as [V0 [V1 [V2 [V3 [V4 [V5 [V6 V7]]]]]]]. specialize (V6 eq_refl).
   assert (Q : (0 <? r_snap r) = true) by (apply N.ltb_lt; exact V0).
-  assert (Hp : pend_idx s = r_snap r) by (unfold pend_idx, pending; rewrite E, ?Q; reflexivity).
+  assert (Hp : pend_idx s = r_snap r) by (unfold pend_idx, pend_r, pending; rewrite E, ?Q; reflexivity).
   assert (Hw : in_window s = 1%nat) by (unfold in_window; rewrite E, ?Q; reflexivity).
   rewrite (pinv_last_entry _ _ HP).
   exists hi. split.
   - apply (pinv_snapin s _ hi hi (r_snap r)); try reflexivity; auto.
   - unfold running. proj. rewrite R.
     assert (Hnw : newest (app_tail (segs s) [RSnapIn false hi (r_snap r)]) = newest (segs s)) by (apply newest_app_tail_nomark; auto).
-    assert (Hp' : forall t, rdp t = RdSnapSaved r -> pend_idx t = r_snap r) by (intros t Ht; unfold pend_idx, pending; rewrite Ht, ?Q; reflexivity).
+    assert (Hp' : forall t, rdp t = RdSnapSaved r -> pend_idx t = r_snap r) by (intros t Ht; unfold pend_idx, pend_r, pending; rewrite Ht, ?Q; reflexivity).
     assert (Hw' : forall t, rdp t = RdSnapSaved r -> in_window t = 1%nat) by (intros t Ht; unfold in_window; rewrite Ht, ?Q; reflexivity).
-    destruct HV; constructor; unfold snap_pend, snap_done, snap_busy in *; proj;
+    destruct HV; constructor; unfold snap_pend, snap_done, snap_mid, snap_busy in *; proj;
       rewrite ?Hp', ?Hw' by reflexivity; rewrite ?Hp in *;
       rewrite ?Hnw, ?snapin_lc, ?snapin_unvalidated, ?snapin_pmarkers, ?app_tail_length, ?nth_sfirst_app_tail by auto; try assumption; try exact I.
     + unfold rd_inv. proj. unfold snapfacts, lc_all_lt, flushed_state, ckpt_ok, window, snap_tail in *. proj.
@@ -341,17 +347,48 @@ Qed.
 
 (* ---------- after the save: the record is valid, raftDone, raftStorage.ApplySnapshot, Release ---------- *)
 
-Lemma nth_map_sfirst : forall (l l' : list seg) n, map sfirst l' = map sfirst l ->
-  sfirst (nth n l' (mkSeg 0 [])) = sfirst (nth n l (mkSeg 0 [])).
+
+(* raftDone after a Save that cut the segment: the record is valid already *)
+Lemma applysnap_before_cut : forall c s r cidx hi,
+  PInv s hi -> VInv c s hi -> rc s = RcRunning -> rdp s = RdSnapCut r 2 cidx ->
+  forallb (fun b => b_snap b =? 0) (queue s) = true ->
+  Inv c (set_rdp (set_rd_done (set_unsynced (set_unflushed s 0) 0) (r_snap r)) (RdSnapApply r 0)).
 Proof.
-  intros l l' n H. change 0 with (sfirst (mkSeg 0 [])) at 1.
-  rewrite <- (map_nth sfirst l'), <- (map_nth sfirst l), H. reflexivity.
+  intros c s r cidx hi HP HV R E Gq.
+  pose proof (v_rd _ _ _ HV) as V. unfold rd_inv in V. rewrite E in V.
+  destruct V as [V0 [V1 [V2 [V3 [V4 [V5 [V6 [V7 _]]]]]]]].
+  assert (Hp : pend_idx s = r_snap r) by (unfold pend_idx, pend_r; rewrite E; reflexivity).
+  assert (Hw : in_window s = 0%nat) by (unfold in_window; rewrite E; reflexivity).
+  exists hi. split; [apply (pinv_flush s); auto|].
+  unfold running. proj. rewrite R.
+  match goal with |- VInv c ?st _ => set (s1 := st) end.
+  assert (Hp' : pend_idx s1 = 0) by reflexivity.
+  assert (Hw' : in_window s1 = 0%nat) by reflexivity.
+  destruct HV; constructor; unfold snap_pend, snap_done, snap_mid, snap_busy in *; rewrite ?Hp', ?Hw'; rewrite ?Hp, ?Hw in *;
+    unfold s1; proj; fold s1; try assumption; try exact I.
+  - unfold rd_inv, s1. proj. repeat split; auto; lia.
+  - lia.
+  - destruct v_latest as [[L1|[L1 _]] L2]; [split; [left; exact L1 | exact L2] | discriminate].
+  - pose proof (p_commit _ _ HP 0%nat ltac:(lia)) as Hc. rewrite drop_tail_0 in Hc. lia.
+  - rewrite forallb_forall in Gq. rewrite Forall_forall in *. intros b Hin. destruct (v_queue b Hin) as [B1 B2].
+    split; [exact B1|]. intros Hb. exfalso. specialize (Gq b Hin). apply N.eqb_eq in Gq. lia.
+  - rewrite V6 in *. destruct v_app as [A1 [A2 A3]]. split; [lia|]. split; [exact A2|]. right. left. lia.
+  - intros j p Hl. destruct (v_sns j p Hl) as [S1 [S2 [S3 [S4 [S5 [S6 S7]]]]]].
+    rewrite V6 in v_app. destruct v_app as [A1 [A2 A3]]. destruct v_snapi as [I1 I2]. repeat split; auto. lia.
+  - intros f Hin Hn. destruct (v_files f Hin Hn) as [X|[X X']]; [left; exact X | discriminate].
+  - intros u Hu. destruct (v_unval u Hu) as [X|[X|X]]; [left; exact X | right; left; exact X | left; lia].
 Qed.
 
 Lemma step_rd_applysnap_before : forall c s s' i, Inv c s -> step c s (EvRdApplySnapBefore i) = Ok s' -> Inv c s'.
 Proof.
   intros c s s' i [hi [HP HV]] H. unfold step in H.
-  destruct (rdp s) as [|r sv pb|r pb apd|r pb idx|r|r fl|r|r k] eqn:E; try discriminate.
+  destruct (rdp s) as [|r sv pb|r pb apd|r pb idx|r|r fl|r|r k|r k cidx] eqn:E; try discriminate.
+  2:{ destruct k as [|[|[|k]]]; try discriminate.
+      destruct (negb (i =? r_snap r)) eqn:G; [discriminate|]. norm_guards. apply N.eqb_eq in G. subst i.
+      destruct (negb (match app s with ApSnapPrepared j => j =? r_snap r | _ => false end)); [discriminate|].
+      destruct (negb (forallb (fun b => b_snap b =? 0) (queue s))) eqn:Gq; [discriminate|]. norm_guards. injection H as <-.
+      unfold running in *. proj. destruct (rc s) eqn:R; try (destruct HV as [_ [Hk _]]; congruence).
+      eapply applysnap_before_cut; eauto. }
   destruct sv; [|discriminate]. destruct pb; [|discriminate].
   destruct (negb (0 <? r_snap r)) eqn:Q; [discriminate|]. norm_guards.
   destruct (negb (i =? r_snap r)) eqn:G; [discriminate|]. norm_guards. apply N.eqb_eq in G. subst i.
@@ -362,7 +399,7 @@ Proof.
   pose proof (v_rd _ _ _ HV) as V. unfold rd_inv in V. rewrite E, Q in V.
   destruct V as [_ [V1 [V2 [[W1 [W2 [W3 W4]]] [V4 V5]]]]].
   assert (Q0 : 0 < r_snap r) by (apply N.ltb_lt; exact Q).
-  assert (Hp : pend_idx s = r_snap r) by (unfold pend_idx, pending; rewrite E, ?Q; reflexivity).
+  assert (Hp : pend_idx s = r_snap r) by (unfold pend_idx, pend_r, pending; rewrite E, ?Q; reflexivity).
   assert (Hw : in_window s = 1%nat) by (unfold in_window; rewrite E, ?Q; reflexivity).
   unfold snapfacts in V1. destruct V1 as [F1 [F2 [F3 [F4 [F5 [F6 F7]]]]]].
   match goal with |- Inv c ?st => set (s1 := st) end.
@@ -373,7 +410,7 @@ Proof.
   assert (Hp' : pend_idx s1 = 0) by reflexivity.
   assert (Hw' : in_window s1 = 0%nat) by reflexivity.
   assert (Hlen : length (segs s1) = length (segs s)) by (rewrite <- (map_length sfirst), Hsf, map_length; reflexivity).
-  destruct HV; constructor; unfold snap_pend, snap_done, snap_busy in *; rewrite ?Hp', ?Hw', ?Hnw, ?Hlc, ?Hlen; rewrite ?Hp, ?Hw in *;
+  destruct HV; constructor; unfold snap_pend, snap_done, snap_mid, snap_busy in *; rewrite ?Hp', ?Hw', ?Hnw, ?Hlc, ?Hlen; rewrite ?Hp, ?Hw in *;
     unfold s1; proj; fold s1; try assumption; try exact I.
   - unfold rd_inv. rewrite Hnw. unfold s1. proj. repeat split; auto; lia.
   - lia.
@@ -402,7 +439,7 @@ Qed.
 Lemma step_rd_applysnap_after : forall c s s' i, Inv c s -> step c s (EvRdApplySnapAfter i) = Ok s' -> Inv c s'.
 Proof.
   intros c s s' i [hi [HP HV]] H. unfold step in H.
-  destruct (rdp s) as [|r sv pb|r pb apd|r pb idx|r|r fl|r|r k] eqn:E; try discriminate.
+  destruct (rdp s) as [|r sv pb|r pb apd|r pb idx|r|r fl|r|r k|r k cidx] eqn:E; try discriminate.
   destruct k; [|discriminate]. destruct (i =? r_snap r); [|discriminate]. injection H as <-.
   exists hi. split; [pframe s|].
   unfold running in *. proj. destruct (rc s) eqn:R; try (destruct HV as [_ [Hk _]]; congruence).
@@ -413,7 +450,7 @@ Qed.
 Lemma step_rd_release_after : forall c s s' i, Inv c s -> step c s (EvRdReleaseAfter i) = Ok s' -> Inv c s'.
 Proof.
   intros c s s' i [hi [HP HV]] H. unfold step in H.
-  destruct (rdp s) as [|r sv pb|r pb apd|r pb idx|r|r fl|r|r k] eqn:E; try discriminate.
+  destruct (rdp s) as [|r sv pb|r pb apd|r pb idx|r|r fl|r|r k|r k cidx] eqn:E; try discriminate.
   destruct k as [|[|k]]; try discriminate. destruct (i =? r_snap r) eqn:G; [|discriminate]. apply N.eqb_eq in G. subst i. injection H as <-.
   exists hi. split; [pframe s|].
   unfold running in *. proj. destruct (rc s) eqn:R; try (destruct HV as [_ [Hk _]]; congruence).
